@@ -53,6 +53,11 @@ func findFile(path string) string {
 	return ""
 }
 
+// globEscape quotes the characters that filepath.Glob treats specially.
+func globEscape(path string) string {
+	return strings.NewReplacer(`\`, `\\`, `*`, `\*`, `?`, `\?`, `[`, `\[`).Replace(path)
+}
+
 func globFiles(path string) ([]string, error) {
 	pat := fmt.Sprintf("%s.*", path)
 	patDots := strings.Count(pat, ".")
